@@ -89,6 +89,11 @@ impl TryFrom<(FeelNumber, FeelNumber, FeelNumber)> for FeelDate {
   type Error = DmntkError;
   /// Converts a tuple of numbers into [FeelDate].
   fn try_from(value: (FeelNumber, FeelNumber, FeelNumber)) -> Result<Self, Self::Error> {
+    let in_range = |number: &FeelNumber, low: i32, high: i32| *number >= FeelNumber::from(low) && *number <= FeelNumber::from(high);
+    if !in_range(&value.0, -999_999_999, 999_999_999) || !in_range(&value.1, 1, 12) || !in_range(&value.2, 1, 31) {
+      // checked before the narrowing conversions below, which would wrap around (month 257 is not month 1)
+      return Err(invalid_date(value.0.into(), value.1.into(), value.2.into()));
+    }
     let year = value.0.into();
     if value.1 > FeelNumber::zero() && value.2 > FeelNumber::zero() {
       let month = value.1.into();
